@@ -45,7 +45,9 @@ def run_mutant(job):
             if r.returncode != 0:
                 return (pid, name, "skipped", "seeded patch no longer applies: " + r.stderr.strip()[:120])
             edits = []
-        for rel, old, new in edits:
+        for ed in edits:
+            rel, old, new = ed[:3]
+            replace_all = len(ed) > 3 and ed[3]
             path = os.path.join(tmp, rel)
             try:
                 with open(path) as fh:
@@ -54,7 +56,7 @@ def run_mutant(job):
                 return (pid, name, "skipped", "file vanished")
             if src.count(old) < 1:
                 return (pid, name, "skipped", f"anchor text not found in {rel}")
-            src = src.replace(old, new, 1)
+            src = src.replace(old, new) if replace_all else src.replace(old, new, 1)
             try:
                 compile(src, path, "exec")
             except SyntaxError as e:
